@@ -712,3 +712,255 @@ func WldLine(spec string, o *WldObs) (op, impl string) {
 	}
 	return "wld data=" + spec, ret + " w=" + w
 }
+
+// ---- second round (third red-team wave): forged checksums, a reference decoder, custom cryptors ------------
+
+var crcTable = crc32.MakeTable(crc32.IEEE)
+
+// ForgeTail returns the four bytes X for which CRC-32(P || X) == target, given crc = CRC-32(P)
+// (CRC-32 is a bijection of the last 32 bits of its input).
+func ForgeTail(crc, target uint32) [4]byte {
+	var rev [256]byte // top byte of a table entry -> its index (the 256 top bytes are distinct)
+	for i := 0; i < 256; i++ {
+		rev[crcTable[i]>>24] = byte(i)
+	}
+	var idx [4]byte
+	w := ^target
+	for i := 3; i >= 0; i-- {
+		t := rev[w>>24]
+		idx[i] = t
+		w = (w ^ crcTable[t]) << 8
+	}
+	var out [4]byte
+	s := ^crc
+	for i := 0; i < 4; i++ {
+		out[i] = byte(s) ^ idx[i]
+		s = crcTable[idx[i]] ^ (s >> 8)
+	}
+	return out
+}
+
+// ForgeFrameCrc overwrites the LAST FOUR BYTES of the frame (which must lie behind the header: references or
+// body) so that the CRC-32 over header-without-checksum + rest equals target, and stores target in the
+// checksum field. ok=false: the frame has fewer than four bytes behind the header.
+func ForgeFrameCrc(v int, f []byte, target uint32) bool {
+	hs := 14
+	if v == 2 {
+		hs = 20
+	}
+	if len(f) < hs+4 {
+		return false
+	}
+	h := crc32.NewIEEE()
+	h.Write(f[:hs-4])
+	h.Write(f[hs : len(f)-4])
+	x := ForgeTail(h.Sum32(), target)
+	copy(f[len(f)-4:], x[:])
+	binary.BigEndian.PutUint32(f[hs-4:], target)
+	h = crc32.NewIEEE()
+	h.Write(f[:hs-4])
+	h.Write(f[hs:])
+	return h.Sum32() == target
+}
+
+// RefFrame is a frame as the protocol description lays it out, parsed by RefDecode.
+type RefFrame struct {
+	Len            int
+	Typ, Flag, Cnt uint8
+	Seq            uint16
+	Node, Cmd, Crc uint32
+	Refs           []uint32
+	Wire           []byte // body bytes as they travel (after compression / encryption)
+}
+
+// RefDecode is an independently written decoder of the documented layout (v1_header.go / v2_header.go
+// comments): it does not call the codec. It checks the length field and the checksum.
+func RefDecode(v int, f []byte) (RefFrame, error) {
+	var x RefFrame
+	hs := 14
+	if v == 2 {
+		hs = 20
+	}
+	if len(f) < hs {
+		return x, fmt.Errorf("frame of %d bytes is shorter than the header", len(f))
+	}
+	if v == 1 {
+		x.Len = int(f[0])<<8 | int(f[1])
+		x.Typ, x.Flag = f[2], f[3]
+		x.Seq = uint16(f[4])<<8 | uint16(f[5])
+		x.Cmd = uint32(f[6])<<24 | uint32(f[7])<<16 | uint32(f[8])<<8 | uint32(f[9])
+		x.Crc = uint32(f[10])<<24 | uint32(f[11])<<16 | uint32(f[12])<<8 | uint32(f[13])
+	} else {
+		x.Len = int(f[0])<<16 | int(f[1])<<8 | int(f[2])
+		x.Typ, x.Flag, x.Cnt = f[3], f[4], f[5]
+		x.Seq = uint16(f[6])<<8 | uint16(f[7])
+		x.Node = uint32(f[8])<<24 | uint32(f[9])<<16 | uint32(f[10])<<8 | uint32(f[11])
+		x.Cmd = uint32(f[12])<<24 | uint32(f[13])<<16 | uint32(f[14])<<8 | uint32(f[15])
+		x.Crc = uint32(f[16])<<24 | uint32(f[17])<<16 | uint32(f[18])<<8 | uint32(f[19])
+	}
+	if x.Len != len(f) {
+		return x, fmt.Errorf("length field %d, frame has %d bytes", x.Len, len(f))
+	}
+	sum := crc32.ChecksumIEEE(append(append([]byte{}, f[:hs-4]...), f[hs:]...))
+	if sum != x.Crc {
+		return x, fmt.Errorf("checksum field %08x, CRC-32 over header, references and body is %08x", x.Crc, sum)
+	}
+	rest := f[hs:]
+	if 4*int(x.Cnt) > len(rest) {
+		return x, fmt.Errorf("%d references announced, %d bytes follow the header", x.Cnt, len(rest))
+	}
+	for i := 0; i < int(x.Cnt); i++ {
+		x.Refs = append(x.Refs, uint32(rest[4*i])<<24|uint32(rest[4*i+1])<<16|uint32(rest[4*i+2])<<8|uint32(rest[4*i+3]))
+	}
+	x.Wire = rest[4*int(x.Cnt):]
+	return x, nil
+}
+
+// DecodeReader runs the real reader once on any io.Reader (a *bufio.Reader, a bytes.Reader, ...): Pos and Reqs
+// are not filled in. head / payload: the slices ReadHeadBody returned (split only).
+func DecodeReader(enc codec.Encoder, dec cipher.BlockCryptor, r io.Reader, split bool) (o DecObs) {
+	pkt := packet.Make()
+	o.Panic = hxlib.Guard(func() {
+		if split {
+			head, body, err := enc.ReadHeadBody(r)
+			if err != nil {
+				o.Err = err
+				return
+			}
+			o.Err = enc.UnmarshalPacket(head, body, dec, pkt)
+		} else {
+			o.Err = enc.ReadPacket(r, dec, pkt)
+		}
+	})
+	o.Pkt = pkt
+	return o
+}
+
+// Custom BlockCryptor implementations: the interface is exported and installed per connection through
+// SetEncryptPair; nothing says an implementation works in place or preserves the length.
+//
+//	x:tag    Encrypt returns a NEW slice: keystream-xored body followed by a 16-byte tag; Decrypt checks and strips it (new slice)
+//	x:seal   the AEAD idiom Seal(src[:0], …): xors src in place and APPENDS the tag to it (the result aliases src when its capacity allows); Decrypt works in place and returns src[:n-16]
+//	x:nonce  stateful sender: an 8-byte message counter is PREPENDED and keys the keystream; Decrypt is stateless (new slices)
+//	x:chain  stateful on both sides, in place, length preserving: the keystream position runs on from message to message (a stream cipher over the connection); frames must be decrypted exactly once, in order
+type XCrypt struct {
+	Kind      string
+	K         []byte
+	ctr       uint64 // x:nonce: messages sent; x:chain: keystream position
+	Calls     int
+	BadTag    int // x:tag / x:seal: Decrypt calls whose tag did not match
+	Malformed int
+}
+
+// NewXCrypt: kind as above ("x:tag" ...); Overhead is what Encrypt adds to the length.
+func NewXCrypt(kind string) *XCrypt {
+	return &XCrypt{Kind: kind, K: []byte("custom-cryptor-key-0123456789")}
+}
+
+func (x *XCrypt) Overhead() int {
+	switch x.Kind {
+	case "x:tag", "x:seal":
+		return 16
+	case "x:nonce":
+		return 8
+	}
+	return 0
+}
+
+func (x *XCrypt) Key() []byte { return x.K }
+func (x *XCrypt) IV() []byte  { return nil }
+
+func (x *XCrypt) ks(pos uint64) byte {
+	z := pos*0x9E3779B97F4A7C15 + uint64(x.K[pos%uint64(len(x.K))])
+	z = (z ^ (z >> 29)) * 0xBF58476D1CE4E5B9
+	return byte(z >> 32)
+}
+
+func (x *XCrypt) tag(plain []byte) [16]byte {
+	var t [16]byte
+	a, b := uint64(adler32.Checksum(plain)), uint64(crc32.ChecksumIEEE(plain))
+	binary.BigEndian.PutUint64(t[:], a<<32|b)
+	binary.BigEndian.PutUint64(t[8:], uint64(len(plain))*0x100000001b3^a)
+	return t
+}
+
+func (x *XCrypt) Encrypt(src []byte) []byte {
+	x.Calls++
+	switch x.Kind {
+	case "x:tag":
+		t := x.tag(src)
+		out := make([]byte, len(src), len(src)+16)
+		for i, b := range src {
+			out[i] = b ^ x.ks(uint64(i))
+		}
+		return append(out, t[:]...)
+	case "x:seal":
+		t := x.tag(src)
+		for i := range src {
+			src[i] ^= x.ks(uint64(i))
+		}
+		return append(src, t[:]...)
+	case "x:nonce":
+		x.ctr++
+		out := make([]byte, 8+len(src))
+		binary.BigEndian.PutUint64(out, x.ctr)
+		for i, b := range src {
+			out[8+i] = b ^ x.ks(x.ctr<<20+uint64(i))
+		}
+		return out
+	case "x:chain":
+		for i := range src {
+			src[i] ^= x.ks(x.ctr)
+			x.ctr++
+		}
+		return src
+	}
+	panic("unknown custom cryptor " + x.Kind)
+}
+
+func (x *XCrypt) Decrypt(src []byte) []byte {
+	x.Calls++
+	switch x.Kind {
+	case "x:tag", "x:seal":
+		if len(src) < 16 {
+			x.Malformed++
+			return nil
+		}
+		n := len(src) - 16
+		var out []byte
+		if x.Kind == "x:seal" {
+			out = src[:n]
+		} else {
+			out = make([]byte, n)
+		}
+		for i := 0; i < n; i++ {
+			out[i] = src[i] ^ x.ks(uint64(i))
+		}
+		if t := x.tag(out); string(t[:]) != string(src[n:]) {
+			x.BadTag++
+			return nil
+		}
+		return out
+	case "x:nonce":
+		if len(src) < 8 {
+			x.Malformed++
+			return nil
+		}
+		c := binary.BigEndian.Uint64(src)
+		out := make([]byte, len(src)-8)
+		for i := range out {
+			out[i] = src[8+i] ^ x.ks(c<<20+uint64(i))
+		}
+		return out
+	case "x:chain":
+		for i := range src {
+			src[i] ^= x.ks(x.ctr)
+			x.ctr++
+		}
+		return src
+	}
+	panic("unknown custom cryptor " + x.Kind)
+}
+
+// XKinds lists the custom cryptors.
+var XKinds = []string{"x:tag", "x:seal", "x:nonce", "x:chain"}
